@@ -16,6 +16,7 @@ import EaselModel.Gencode.ReadCode
 import EaselModel.Gencode.ReadComplete
 import EaselModel.Alphabet.Iupac
 import EaselModel.Gencode.WholeLemmas
+import EaselModel.Gencode.SixFrames
 /-! # C17 — property theorems (statements + glue only; lemmas live in Gencode/*.lean)
 
 `T.tables` = every row of `esl_transl_tables[]` dumped from the code under check on this run; `Ncbi.pinned` = the
@@ -377,6 +378,82 @@ theorem windowed_eq_full_length (nt aa : Alphabet) (g : Gencode) (o : Opts) (W :
     (hL : 3 ≤ d.length) :
     byWindows nt aa g (workstateCreate o) W w d = bySequence nt aa g (workstateCreate o) w d :=
   byWindows_eq_bySequence nt aa g (workstateCreate o) W hW w d hL
+
+/-- `esl_gencode_WorkstateCreate` under ALL option combinations: `--crick` switches the top strand off, `--watson` the reverse
+    strand (both together: nothing is translated, any sequence leaves the work state untouched), `-m` or `-M` make the first
+    residue of every ORF an M, `-l` is the minimum length; and the genetic code `esl-translate` sets up for `-c <id>` is one of
+    the three initiator settings of that table (`-m`: only AUG, `-M`: the table's own, neither: any sense codon), to which
+    `no_initiator_stop` / `builtin_tables_ok` apply -/
+theorem workstate_options (o : Opts) :
+    ((workstateCreate o).doWatson = !o.crick) ∧ ((workstateCreate o).doCrick = !o.watson) ∧
+    ((workstateCreate o).usingInit = (o.optm || o.optM)) ∧ (workstateCreate o).minlen = o.l ∧
+    (o.watson = true → o.crick = true → ∀ nt aa g w d, bySequence nt aa g (workstateCreate o) w d = some w) ∧
+    (∀ t ∈ T.tables, ∃ g ∈ settings (codeOf t), codeForOpts A.dna A.amino T.tables t.id o = some g ∧
+      g = (if o.optm = true then setInitiatorOnlyAUG A.dna (codeOf t) else if o.optM = true then codeOf t
+           else setInitiatorAny A.amino (codeOf t))) := by
+  refine ⟨by unfold workstateCreate; cases o.crick <;> rfl, by unfold workstateCreate; cases o.watson <;> rfl,
+    by unfold workstateCreate; cases o.optm <;> cases o.optM <;> rfl, rfl, fun hw hc nt aa g w d => ?_, fun t ht => ?_⟩
+  · unfold bySequence workstateCreate
+    by_cases h : d.length < 3 <;> simp [h, hw, hc]
+  · have hset := Facts.table_ids.2.2.2.2.1 t ht
+    unfold codeForOpts
+    rw [hset]
+    cases o.optm <;> cases o.optM <;> simp [settings]
+
+/-- **SIX-FRAME TRANSLATION OF A WHOLE SEQUENCE** (`esl-translate`'s full-length main loop `do_by_sequences`; by
+    `windowed_eq_full_length` also the `-W` loop). For ANY table, every DNA sequence of at least one codon over valid codes,
+    EVERY combination of `--watson`, `--crick`, `-m`, `-M`, `-l <n>` and whatever the output block already holds: the loop does
+    not fault, and afterwards the records labelled frame 1, 2, 3 are those of the one-frame ORF finder `frameOrfs` over the
+    sequence read forward from coordinate 1 (none with `--crick`), the records labelled frame 4, 5, 6 are those of the finder
+    over the reverse complement read from coordinate L downwards (none with `--watson`), each list in front of what the block
+    held under that label; no record carries any other label. (`frameOrfs` is stated declaratively by `orf_frame_declarative`;
+    numbering and order of the records: `orf_numbering_and_order`, strand by strand.) -/
+theorem six_frame_translation (nt aa : Alphabet) (g : Gencode) (o : Opts) (hn : NtOK nt) (hg : CodeOK g)
+    (hc : ∀ x, x < nt.Kp → (nt.complement.getD []).getD x 255 < nt.Kp) (w0 : Work) (d : List Nat)
+    (hv : ∀ x ∈ d, x < nt.Kp) (hL : 3 ≤ d.length) :
+    ∃ w', bySequence nt aa g (workstateCreate o) w0 d = some w' ∧
+      (∀ f, f < 3 → recsOf w'.c.out (f + 1) =
+        (if o.crick = true then [] else frameOrfs nt aa g (workstateCreate o).cfg 1 1 d f) ++ recsOf w0.c.out (f + 1)) ∧
+      (∀ f, f < 3 → recsOf w'.c.out (f + 4) =
+        (if o.watson = true then [] else frameOrfs nt aa g (workstateCreate o).cfg (-1) (d.length : Int) (revcomp nt d) f) ++
+          recsOf w0.c.out (f + 4)) ∧
+      (∀ lbl, (lbl = 0 ∨ 7 ≤ lbl) → recsOf w'.c.out lbl = recsOf w0.c.out lbl) :=
+  bySequence_spec nt aa g o hn hg hc w0 d hv hL
+
+/-- the dumped DNA and RNA alphabets satisfy the complement hypothesis of `six_frame_translation`: the complement of a valid code
+    is a valid code (and complementing twice is the identity) -/
+theorem complement_closed :
+    ∀ nt ∈ [A.dna, A.rna], ∀ x, x < nt.Kp → (nt.complement.getD []).getD x 255 < nt.Kp ∧
+      (nt.complement.getD []).getD ((nt.complement.getD []).getD x 255) 255 = x := by decide +kernel
+
+/-- SEQUENCES SHORTER THAN A CODON (0, 1, 2 residues) are ignored by both main loops: `do_by_sequences` skips them; in
+    `do_by_windows` the `ProcessEnd` calls at `eslEOD` run on an idle machine (no frame inside an ORF — the state
+    `WorkstateCreate` makes and every completed strand leaves), emit nothing, and leave it idle -/
+theorem short_sequences_ignored (nt aa : Alphabet) (g : Gencode) (o : Opts) (W : Nat) (w : Work) (d : List Nat)
+    (hL : d.length < 3) (hf : w.c.frame < 3) (hi : Idle w.c) :
+    bySequence nt aa g (workstateCreate o) w d = some w ∧
+    ∃ w', byWindows nt aa g (workstateCreate o) W w d = some w' ∧ w'.c.out = w.c.out ∧ w'.c.orfcount = w.c.orfcount ∧
+      Idle w'.c ∧ w'.c.frame < 3 :=
+  short_sequence_noop nt aa g (workstateCreate o) W w d hL hf hi
+
+/-- every completed strand leaves the machine idle with its frame counter in range (the hypotheses of `short_sequences_ignored`
+    hold between sequences) -/
+theorem strand_leaves_idle (nt aa : Alphabet) (g : Gencode) (cfg : Cfg) (hn : NtOK nt) (hg : CodeOK g) (w0 : Work)
+    (isRev : Bool) (d : List Nat) (hv : ∀ x ∈ d, x < nt.Kp) :
+    ∃ w', runStrand nt aa g cfg w0 isRev d [d.length] = some w' ∧ Idle w'.c ∧ w'.c.frame < 3 := by
+  obtain ⟨w', h1, _, h3, h4⟩ := runStrand_other nt aa g cfg hn hg w0 isRev d hv
+  exact ⟨w', h1, h3, h4⟩
+
+example : Idle ({} : Work).c ∧ ({} : Work).c.frame < 3 := ⟨⟨rfl, rfl, rfl⟩, by decide⟩
+
+-- non-vacuity: ATGAAATAAC, standard code, default options, minlen 1: frame 1 has MK (1..6); the reverse complement GTTATTTCAT
+-- holds no stop in frame 4: VIS (10..2); six ORFs in all (NN 5..10, EI 3..8, LFH 9..1, YF 8..3)
+example : (T.tables.head?.map fun t =>
+    let o : Opts := ⟨false, false, false, false, 1⟩
+    let g := setInitiatorAny A.amino (codeOf t)
+    let d := [0,3,2,0,0,0,3,0,0,1]
+    (bySequence A.dna A.amino g (workstateCreate o) {} d).map fun w => (recsOf w.c.out 1, recsOf w.c.out 4, w.c.orfcount)) =
+    some (some ([⟨1, 6, [10, 8]⟩], [⟨10, 2, [17, 7, 15]⟩], 6)) := by decide +kernel
 
 -- non-vacuity: GGATGAAATAAC (12 nt), windows 5+4+3 from the 3' end: the slices of the top strand, reverse complemented
 example : topSlices A.dna [2,2,0,3,2,0,0,0,3,0,0,1] 0 [5, 4, 3] =
